@@ -30,7 +30,7 @@ type Machine struct {
 	Vars                       map[string]machine.Value
 	UnresolvedResources        []program.Resource
 	Resources                  []machine.Value // Constants and Variables
-	UnresolvedResourceBalances map[string]int
+	UnresolvedResourceBalances map[string][]int
 	resolveCalled              bool
 	Balances                   map[machine.AccountAddress]map[machine.Asset]*machine.MonetaryInt // keeps track of balances throughout execution
 	Stack                      []machine.Value
@@ -63,7 +63,7 @@ func NewMachine(p program.Program) *Machine {
 		Postings:                   make([]Posting, 0),
 		TxMeta:                     map[string]machine.Value{},
 		AccountsMeta:               map[machine.AccountAddress]map[string]machine.Value{},
-		UnresolvedResourceBalances: map[string]int{},
+		UnresolvedResourceBalances: map[string][]int{},
 	}
 
 	return &m
@@ -492,18 +492,20 @@ func (m *Machine) Execute() error {
 
 func (m *Machine) ResolveBalances(ctx context.Context, store Store) error {
 
-	// map account/asset/resourceIndex
-	assignBalanceAsResource := map[string]map[string]int{}
+	// map account/asset/resourceIndexes (several balance variables may name the same account, or the same account and asset)
+	assignBalanceAsResource := map[string]map[string][]int{}
 
 	balancesQuery := BalanceQuery{}
-	for address, resourceIndex := range m.UnresolvedResourceBalances {
-		monetary := m.Resources[resourceIndex].(machine.Monetary)
-		balancesQuery[address] = append(balancesQuery[address], string(monetary.Asset))
+	for address, resourceIndexes := range m.UnresolvedResourceBalances {
+		for _, resourceIndex := range resourceIndexes {
+			monetary := m.Resources[resourceIndex].(machine.Monetary)
+			balancesQuery[address] = append(balancesQuery[address], string(monetary.Asset))
 
-		if _, ok := assignBalanceAsResource[address]; !ok {
-			assignBalanceAsResource[address] = map[string]int{}
+			if _, ok := assignBalanceAsResource[address]; !ok {
+				assignBalanceAsResource[address] = map[string][]int{}
+			}
+			assignBalanceAsResource[address][string(monetary.Asset)] = append(assignBalanceAsResource[address][string(monetary.Asset)], resourceIndex)
 		}
-		assignBalanceAsResource[address][string(monetary.Asset)] = resourceIndex
 	}
 
 	m.Balances = make(map[machine.AccountAddress]map[machine.Asset]*machine.MonetaryInt)
@@ -541,8 +543,7 @@ func (m *Machine) ResolveBalances(ctx context.Context, store Store) error {
 		for account, forAssets := range balances {
 			for asset, balance := range forAssets {
 				if assignBalanceAsResource[account] != nil {
-					resourceIndex, ok := assignBalanceAsResource[account][asset]
-					if ok {
+					for _, resourceIndex := range assignBalanceAsResource[account][asset] {
 						if balance.Cmp(ledger.Zero) < 0 {
 							return machine.NewErrNegativeAmount("tried to request the balance of account %s for asset %s: received %s: monetary amounts must be non-negative",
 								account, asset, balance)
@@ -615,7 +616,7 @@ func (m *Machine) ResolveResources(ctx context.Context, store Store) error {
 			acc, _ := m.getResource(res.Account)
 			address := string((*acc).(machine.AccountAddress))
 			involvedAccountsMap[machine.Address(idx)] = address
-			m.UnresolvedResourceBalances[address] = idx
+			m.UnresolvedResourceBalances[address] = append(m.UnresolvedResourceBalances[address], idx)
 
 			ass, ok := m.getResource(res.Asset)
 			if !ok {
